@@ -32,7 +32,8 @@ def types(header, names, implicit):
             continue
         if cur is not None:
             res[cur].append(line)
-    return {k: "\n".join(v).strip()[1:].strip() for k, v in res.items()}
+    # `context` (a common Python parameter name) is a keyword of Coq's term grammar: rename the bound variable in the statement
+    return {k: re.sub(r"\bcontext\b", "context_", "\n".join(v).strip()[1:].strip()) for k, v in res.items()}
 
 
 def main():
